@@ -114,7 +114,7 @@ def soup_malformed(rng, to_client, pending_triage=False):
     # packets of the other direction (well-formed, but not what this side expects)
     for t in other_dir:
         size = SOUP_FIXED.get(t)
-        pl = (b'1' * size) if size is not None else b'12'
+        pl = (b'1' * size) if size is not None else b'xy'
         if t == ord('J'):
             pl = b'A'
         if t == ord('A'):
